@@ -54,7 +54,7 @@ static Args parse(int argc, char **argv) {
         else if (k == "--alpha2") a.alpha2 = (unsigned)std::stoul(nxt());
         else if (k == "--depth") a.depth = std::stoi(nxt());
         else if (k == "--depth2") a.depth2 = std::stoi(nxt());
-        else if (k == "--caps") { std::string c = nxt(); sscanf(c.c_str(), "%d,%d,%d,%d", &a.caps.v, &a.caps.e, &a.caps.f, &a.caps.c); }
+        else if (k == "--caps") { std::string c = nxt(); sscanf(c.c_str(), "%d,%d,%d,%d,%d,%d,%d", &a.caps.v, &a.caps.e, &a.caps.f, &a.caps.c, &a.caps.lf, &a.caps.lc, &a.caps.pool); }
         else if (k == "--max-states") a.max_states = std::stoul(nxt());
         else if (k == "--deadline") a.deadline = std::stod(nxt());
         else if (k == "--list-seeds") a.list_seeds = true;
